@@ -1,11 +1,12 @@
 SPECIFICATION Spec
 CONSTANTS
-  MaxNodes = 3
-  WriteEps = {"msgpack", "lp_v1", "lp_v2", "lp_simple", "tle"}
+  MaxNodes = 2
+  WriteEps = {"msgpack"}
   QueryEps = {"query", "estimate", "arrow"}
   NoPrologue = {"estimate", "arrow"}
   Emit = FALSE
   Retries = 2
   RetrySwitchesPeer = FALSE
+  RemembersPrimary = FALSE
 INVARIANTS TypeOK Safety
 CHECK_DEADLOCK FALSE
